@@ -11,6 +11,7 @@ pub mod c14;
 pub mod c07;
 pub mod c03;
 pub mod c09;
+pub mod c11;
 pub mod c20;
 
 pub fn run(prop: &str, ctx: &mut Ctx) -> Option<Report> {
@@ -25,6 +26,7 @@ pub fn run(prop: &str, ctx: &mut Ctx) -> Option<Report> {
         "C07" => Some(c07::run(ctx)),
         "C03" => Some(c03::run(ctx)),
         "C09" => Some(c09::run(ctx)),
+        "C11" => Some(c11::run(ctx)),
         "C20" => Some(c20::run(ctx)),
         _ => None,
     }
